@@ -167,11 +167,107 @@ Lemma uri_absolute_ok (u : uri) : caches_ok u ->
   (fst (uri_absolute u) <> [] -> u_abs_cache (snd (uri_absolute u)) = fst (uri_absolute u)).
 Proof.
   intros Hok. pose proof Hok as [Hp Ha]. unfold uri_absolute. destruct (nonempty (u_abs_cache u)) eqn:E; cbn [fst snd].
-  - destruct Ha as [Ha|Ha]; [rewrite Ha in E; discriminate|]. repeat split; try assumption. now intros _.
+  - destruct Ha as [Ha|Ha]; [rewrite Ha in E; discriminate|]. repeat split; try assumption; try reflexivity. now right.
   - destruct (uri_absolute_path_ok u Hok) as (H1 & H2 & H3 & H4 & H5 & H6 & H7).
     destruct (uri_absolute_path u) as [ap u1] eqn:Eap; cbn [fst snd] in *.
     repeat split; cbn; try assumption.
     + unfold uri_abs_text. now rewrite H3, H1.
     + destruct H2 as [H2 _]. unfold uri_path in *; cbn. unfold uri_path in H2. rewrite H4, H5 in *. exact H2.
     + right. unfold uri_abs_text, uri_path; cbn. rewrite H1, H3. unfold uri_path. now rewrite H4, H5.
+Qed.
+
+(* the text absolute() returns does not change when it is asked again (whatever the caches held) *)
+Lemma uri_absolute_fst_idem (u : uri) : fst (uri_absolute (snd (uri_absolute u))) = fst (uri_absolute u).
+Proof.
+  destruct u as [fr hx urn p ca cp]. unfold uri_absolute; cbn [u_abs_cache].
+  destruct (nonempty ca) eqn:Ea; cbn [fst snd u_abs_cache]; [now rewrite Ea|].
+  unfold uri_absolute_path; cbn [u_abspath_cache u_front u_httpx u_urn u_path u_abs_cache].
+  destruct (nonempty cp) eqn:Ep; cbn [fst snd u_front u_abs_cache u_abspath_cache u_httpx u_urn u_path].
+  - destruct (nonempty (fr ++ cp)) eqn:Ev; cbn [fst snd]; [reflexivity|].
+    cbn [u_abspath_cache]. rewrite Ep. reflexivity.
+  - set (v := uri_encode pg_PathChars (uri_path (mkUri fr hx urn p ca cp))).
+    destruct (nonempty (fr ++ v)) eqn:Ev; cbn [fst snd]; [reflexivity|].
+    cbn [u_abspath_cache]. destruct (nonempty v) eqn:Ev2; cbn [fst snd u_front]; [reflexivity|].
+    unfold uri_path; cbn [u_path u_httpx]. reflexivity.
+Qed.
+
+Lemma eru_fst_idem (rq : request) :
+  fst (effective_request_uri (snd (effective_request_uri rq))) = fst (effective_request_uri rq).
+Proof.
+  unfold effective_request_uri.
+  destruct ((rq_method rq =? pg_METHOD_CONNECT) || rq_authority_form rq) eqn:E; cbn [fst snd]; [now rewrite E|].
+  destruct (uri_absolute (rq_url rq)) as [a u'] eqn:Eu; cbn [fst snd rq_method rq_authority_form rq_url].
+  rewrite E. pose proof (uri_absolute_fst_idem (rq_url rq)) as H. rewrite Eu in H; cbn [fst snd] in H.
+  destruct (uri_absolute u') as [a2 u2]; cbn [fst snd] in *. exact H.
+Qed.
+
+Lemma eru_method (rq : request) : rq_method (snd (effective_request_uri rq)) = rq_method rq.
+Proof.
+  unfold effective_request_uri. destruct ((rq_method rq =? pg_METHOD_CONNECT) || rq_authority_form rq); [reflexivity|].
+  now destruct (uri_absolute (rq_url rq)).
+Qed.
+
+(* ------------------------------------------------------------------ what is evicted *)
+Lemma in_purge_by_url (m : N) (url : bytes) : In (m, url) (purge_entries_by_url url) <-> In m (cacheable_ids pg_methods).
+Proof.
+  unfold purge_entries_by_url. rewrite in_map_iff. split.
+  - intros (x & Hx & Hin). inversion Hx; now subst.
+  - intros H. now exists m.
+Qed.
+
+Definition request_uri (rq : request) : bytes := cstr (fst (effective_request_uri rq)).
+
+Lemma maybe_purge_target (rq : request) (rp : reply) (m : N) :
+  purges_others (rq_method rq) = true -> rp_status rp < STATUS_LIMIT -> In m (cacheable_ids pg_methods) ->
+  In (m, request_uri rq) (maybe_purge_others rq rp).
+Proof.
+  intros Hp Hs Hm. unfold maybe_purge_others. rewrite Hp; cbn [negb].
+  destruct (STATUS_LIMIT <=? rp_status rp) eqn:E; [apply N.leb_le in E; lia|].
+  unfold request_uri. destruct (effective_request_uri rq) as [u0 rq1]; cbn [fst].
+  apply in_or_app; left. now apply in_purge_by_url.
+Qed.
+
+Lemma target_evicted (rq : request) (rp : reply) (m : N) :
+  purges_others (rq_method rq) = true -> rp_status rp < STATUS_LIMIT -> In m (cacheable_ids pg_methods) ->
+  In (m, request_uri rq) (evicted_keys rq rp).
+Proof.
+  intros Hp Hs Hm. unfold evicted_keys. apply in_or_app; right.
+  replace (request_uri rq) with (request_uri (snd (effective_request_uri rq))) by (unfold request_uri; now rewrite eru_fst_idem).
+  apply maybe_purge_target; [now rewrite eru_method| exact Hs| exact Hm].
+Qed.
+
+Lemma other_method_target_evicted (rq : request) (rp : reply) (m : N) :
+  rq_method rq = pg_METHOD_OTHER -> In m (cacheable_ids pg_methods) -> In (m, request_uri rq) (evicted_keys rq rp).
+Proof.
+  intros Ho Hm. unfold evicted_keys, process_miss_purge. rewrite Ho, N.eqb_refl.
+  apply in_or_app; left. now apply in_purge_by_url.
+Qed.
+
+Lemma nothing_evicted_without_purging_method (rq : request) (rp : reply) :
+  purges_others (rq_method rq) = false -> (rq_method rq =? pg_METHOD_OTHER) = false -> evicted_keys rq rp = [].
+Proof.
+  intros Hp Ho. unfold evicted_keys, process_miss_purge, maybe_purge_others. rewrite Ho, eru_method, Hp. reflexivity.
+Qed.
+
+Lemma nothing_evicted_on_error_reply (rq : request) (rp : reply) :
+  STATUS_LIMIT <= rp_status rp -> (rq_method rq =? pg_METHOD_OTHER) = false -> evicted_keys rq rp = [].
+Proof.
+  intros Hs Ho. unfold evicted_keys, process_miss_purge, maybe_purge_others. rewrite Ho.
+  destruct (negb (purges_others (rq_method (snd (effective_request_uri rq))))); [reflexivity|].
+  apply N.leb_le in Hs. now rewrite Hs.
+Qed.
+
+(* the user-visible form: after the exchange no lookup finds the target's GET/HEAD entries, whatever the store held *)
+Lemma target_not_served (rq : request) (rp : reply) (m : N) (s : store) :
+  purges_others (rq_method rq) = true -> rp_status rp < STATUS_LIMIT -> In m (cacheable_ids pg_methods) ->
+  store_has (evict_all (evicted_keys rq rp) s) (m, request_uri rq) = false.
+Proof. intros Hp Hs Hm. apply evicted_not_in_store. now apply target_evicted. Qed.
+
+Lemma target_not_served_for_invalidating (rq : request) (rp : reply) (s : store) :
+  should_invalidate (rq_method rq) = true -> rp_status rp < 400 ->
+  store_has (evict_all (evicted_keys rq rp) s) (pg_METHOD_GET, request_uri rq) = false /\
+  store_has (evict_all (evicted_keys rq rp) s) (pg_METHOD_HEAD, request_uri rq) = false.
+Proof.
+  intros Hi Hs. apply should_invalidate_purges in Hi.
+  split; apply target_not_served; try assumption; rewrite cacheable_are_get_head; cbn [In]; auto.
 Qed.
